@@ -61,6 +61,7 @@ class Sim:
         self.line_hits = {}
         self.noise = noise
         self.max_steps = max_steps
+        self.max_threads = 160
         self.repo_prefix = repo_prefix
         self.aborted = None
         self.switches = 0
@@ -79,6 +80,11 @@ class Sim:
 
     # -- registration -----------------------------------------------------
     def _register(self, name):
+        if len(self.threads) >= self.max_threads:
+            # every simulated thread is a real one: a scenario that keeps spawning (a state that re-invokes a child machine in a
+            # loop) is cut here, reported as an aborted run and not judged
+            self.aborted = self.aborted or "thread_budget"
+            raise SimAbort("thread budget")
         ts = _TState(len(self.threads), name)
         self.threads.append(ts)
         return ts
